@@ -26,9 +26,15 @@ pub enum InjectKind {
     SendTargetExpr,
     SendDelayExpr,
     SendNamelist,
+    /// the failing element sits inside a branch / loop body that is executed: the error
+    /// aborts that nested block *and* the rest of the enclosing blocks
+    NestedThen,
+    NestedElse,
+    NestedElseIf,
+    NestedForEachBody,
 }
 
-pub const INJECT_KINDS: [InjectKind; 12] = [
+pub const INJECT_KINDS: [InjectKind; 16] = [
     InjectKind::IfCond,
     InjectKind::ElseIfCond,
     InjectKind::AssignExpr,
@@ -40,6 +46,10 @@ pub const INJECT_KINDS: [InjectKind; 12] = [
     InjectKind::SendEventExpr,
     InjectKind::SendTargetExpr,
     InjectKind::SendDelayExpr,
+    InjectKind::NestedThen,
+    InjectKind::NestedElse,
+    InjectKind::NestedElseIf,
+    InjectKind::NestedForEachBody,
     InjectKind::SendNamelist,
 ];
 
@@ -175,6 +185,32 @@ fn gen_item(t: &mut Tape, ctx: &mut Ctx, depth: usize, states: &[String], inject
                 let mut s = valid_send(t);
                 s.namelist = vec!["nosuchvar".into()];
                 C::Send(Box::new(s))
+            }
+            InjectKind::NestedThen | InjectKind::NestedElse | InjectKind::NestedElseIf | InjectKind::NestedForEachBody if depth >= 3 => C::Log(X::Bad(bad(t))),
+            InjectKind::NestedThen => {
+                let then = gen_exec_block(t, ctx, depth + 1, states, true);
+                let els = if t.bool() { Some(gen_exec_block(t, ctx, depth + 1, states, false)) } else { None };
+                C::If { branches: vec![(X::Bool(true), then)], els }
+            }
+            InjectKind::NestedElse => {
+                let then = gen_exec_block(t, ctx, depth + 1, states, false);
+                let els = gen_exec_block(t, ctx, depth + 1, states, true);
+                C::If { branches: vec![(X::Bool(false), then)], els: Some(els) }
+            }
+            InjectKind::NestedElseIf => {
+                ctx.has_elseif_or_foreach = true;
+                let b1 = gen_exec_block(t, ctx, depth + 1, states, false);
+                let b2 = gen_exec_block(t, ctx, depth + 1, states, true);
+                let els = if t.bool() { Some(gen_exec_block(t, ctx, depth + 1, states, false)) } else { None };
+                C::If { branches: vec![(X::Bool(false), b1), (X::Bool(true), b2)], els }
+            }
+            InjectKind::NestedForEachBody => {
+                ctx.has_elseif_or_foreach = true;
+                ctx.n += 1;
+                let tag = format!("{}.{}", ctx.prefix, ctx.n);
+                let mut body = vec![C::Mark { tag, args: vec![X::Var("it".into()), X::Var("ix".into())] }];
+                body.extend(gen_exec_block(t, ctx, depth + 1, states, true));
+                C::ForEach { array: X::IntArr(vec![3, 1, 2]), item: "it".into(), index: Some("ix".into()), body }
             }
         };
     }
